@@ -115,6 +115,7 @@ class Buffer(PartHandler):
         min_time_change = np.nextafter(self.env.now, np.inf) - self.env.now
 
         can_continue = True
+        passed_any = False
         while len(self._buffer) > 0 and can_continue:
             if self._remaining_wait_time(self._buffer[0][0]) > min_time_change:
                 break
@@ -126,6 +127,7 @@ class Buffer(PartHandler):
                     self._buffer.pop(0)
                     self._env.add_datapoint('level', self.name, (self._env.now, self.level()))
                     can_continue = True
+                    passed_any = True
                     break
 
         if len(self._buffer) > 0:
@@ -136,7 +138,12 @@ class Buffer(PartHandler):
                 self._schedule_pass_part_downstream(time_offset = remaining_wait)
             else:
                 self._waiting_for_downstream_space = True
-        self.notify_upstream_of_available_space()
+        if passed_any:
+            # Space became available only if a Part has left; an
+            # unconditional notification wakes this Buffer itself when
+            # it is its own upstream (a loop through zero-time devices)
+            # and the simulation never leaves the current instant.
+            self.notify_upstream_of_available_space()
 
     @staticmethod
     def _get_part_count(part):
